@@ -9,6 +9,6 @@ import chanlib
 THEOREMS = chanlib.names("C02")
 
 def run(ctx):
-    chanlib.standard_run(ctx, "Fv.Props.C02", THEOREMS, [])
+    chanlib.standard_run(ctx, "Fv.Props.C02", THEOREMS, ["C02_SpmcB_N1_stale_clone_order.case"])
     # step-level (layer B) obligations/ties of the lock-free cores, provided by their own modules
     chanlib.layer_b(ctx, chanlib.LAYER_B_ALL)
